@@ -365,13 +365,315 @@ Proof.
 Qed.
 
 Lemma den_add K L i : wf_k K -> kshape K = kshape L -> den (k_add K L) i = den K i + den L i.
-Proof. intros W HS. unfold k_add. rewrite den_addlike; auto. now destruct L. Qed.
+Proof. intros W HS. unfold k_add. rewrite den_addlike by auto. destruct L; reflexivity. Qed.
 
 Lemma den_sub K L i : wf_k K -> kshape K = kshape L -> den (k_sub vopp K L) i = vsub (den K i) (den L i).
 Proof.
   intros W HS. unfold k_sub. rewrite den_addlike; auto.
-  - change (mkK (map vopp (kweights L)) (kfactors L)) with (k_neg vopp L). rewrite den_neg. ring.
-  - unfold krank. apply map_length.
+  2: unfold krank; apply map_length.
+  change (mkK (map vopp (kweights L)) (kfactors L)) with (k_neg vopp L). rewrite den_neg. ring.
 Qed.
+
+
+(* ------------------------------------------------------------------------------------------------ *)
+(* full normalize / arrange: sign fix, absorption (one mode or 'all'), sort                          *)
+(* ------------------------------------------------------------------------------------------------ *)
+Section Norm2.
+Variables (nrm : list V -> V) (pos neg : V -> bool) (root : V -> V) (srt : list V -> list nat).
+Hypothesis vinv_r : forall x, x <> v0 -> x * vinv x = v1.
+Hypothesis pos_nz : forall x, pos x = true -> x <> v0.
+Hypothesis nrm_pos : forall l, pos (nrm l) = false -> Forall (fun y => y = v0) l.
+Hypothesis srt_perm : forall l, is_perm (srt l) (length l).
+
+Notation ncols := (k_normalize_cols v0 v1 vmul vinv nrm pos).
+Notation fixneg := (k_fix_neg v1 vmul vopp neg).
+Notation absorb := (k_absorb v1 vmul root).
+Notation ksort := (k_sort v0 srt).
+Notation normalize := (k_normalize v0 v1 vmul vopp vinv nrm pos neg root srt).
+Notation arrange := (k_arrange v0 v1 vmul vopp vinv nrm pos neg root srt).
+
+Lemma nth_map_in {A} (f : A -> V) (l : list A) r d : r < length l -> nth r (map f l) v0 = f (nth r l d).
+Proof. intros H. rewrite (nth_indep _ v0 (f d)) by (now rewrite map_length). apply map_nth. Qed.
+
+Lemma sgn_neg_sq w : sgn_neg v1 vopp neg w * sgn_neg v1 vopp neg w = v1.
+Proof. unfold sgn_neg, vm1. destruct (neg w); ring. Qed.
+
+Lemma fix_neg_props K :
+  kshape (fixneg K) = kshape K /\ krank (fixneg K) = krank K /\ length (kfactors (fixneg K)) = length (kfactors K) /\
+  forall i, den (fixneg K) i = den K i.
+Proof.
+  unfold k_fix_neg. destruct (kfactors K) as [|A0 As] eqn:E; [rewrite E; auto|].
+  assert (Hs : kshape (mkK (zipm (kweights K) (map (sgn_neg v1 vopp neg) (kweights K)))
+                           (scols (map (sgn_neg v1 vopp neg) (kweights K)) A0 :: As)) = kshape K).
+  { unfold kshape. cbn [kfactors]. rewrite E. cbn [map]. now rewrite nrows_scale_cols. }
+  assert (Hr : krank (mkK (zipm (kweights K) (map (sgn_neg v1 vopp neg) (kweights K)))
+                           (scols (map (sgn_neg v1 vopp neg) (kweights K)) A0 :: As)) = krank K).
+  { unfold krank. cbn [kweights]. rewrite length_zipmul, map_length. lia. }
+  repeat split; auto.
+  apply den_k_ext; auto.
+  intros i r Hi Hr'. pose proof (inb_kshape_length K i Hi) as HL. rewrite E in HL.
+  unfold comp. cbn [kweights kfactors]. rewrite E.
+  change (scols (map (sgn_neg v1 vopp neg) (kweights K)) A0 :: As)
+    with (upd_nth 0 (scols (map (sgn_neg v1 vopp neg) (kweights K))) (A0 :: As)).
+  rewrite (kprod_upd_nth 0 _ (nth r (map (sgn_neg v1 vopp neg) (kweights K)) v0)); auto.
+  2: intros x; apply mget_scale_cols. 2: cbn; lia.
+  rewrite nth_zipmul. rewrite (nth_map_in _ _ r v0) by exact Hr'.
+  transitivity (nth r (kweights K) v0 * kp (A0 :: As) i r *
+                (sgn_neg v1 vopp neg (nth r (kweights K) v0) * sgn_neg v1 vopp neg (nth r (kweights K) v0))); [ring|].
+  rewrite sgn_neg_sq. ring.
+Qed.
+
+Lemma fix_neg_weight K r : kfactors K <> [] -> r < krank K ->
+  nth r (kweights (fixneg K)) v0 = nth r (kweights K) v0 * sgn_neg v1 vopp neg (nth r (kweights K) v0).
+Proof.
+  intros Hne Hr. unfold k_fix_neg. destruct (kfactors K) as [|A0 As]; [congruence|]. cbn [kweights].
+  rewrite nth_zipmul. now rewrite (nth_map_in _ _ r v0).
+Qed.
+
+Lemma den_absorb_all K :
+  (forall r, r < krank K -> vpow v1 vmul (root (nth r (kweights K) v0)) (length (kfactors K)) = nth r (kweights K) v0) ->
+  forall i, den (absorb WAll K) i = den K i.
+Proof.
+  intros Hroot. apply den_k_ext.
+  - unfold kshape. cbn. rewrite map_map. apply map_ext. intros A. apply nrows_scale_cols.
+  - unfold krank. cbn. unfold ones. apply map_length.
+  - intros i r Hi Hr. unfold comp. cbn [k_absorb kweights kfactors].
+    rewrite nth_ones by exact Hr. rewrite kprod_map_scale by (now apply inb_kshape_length).
+    rewrite (nth_map_in _ _ r v0) by exact Hr. rewrite Hroot by exact Hr. ring.
+Qed.
+
+Lemma den_absorb_mode n K : forall i, den (absorb (WMode n) K) i = den K i.
+Proof.
+  intros i. cbn [k_absorb]. destruct (Nat.ltb_spec n (length (kfactors K))); auto. now apply den_redistribute.
+Qed.
+
+Lemma den_sort K : forall i, den (ksort K) i = den K i.
+Proof.
+  intros i. unfold k_sort. destruct (1 <? krank K); auto. apply den_gather_perm. apply srt_perm.
+Qed.
+
+Definition neg_opp_spec : Prop := forall x, neg x = true -> neg (vopp x) = false.
+
+(* the weights after the sign step are not negative (whatever the norm oracle returned) *)
+Lemma fix_neg_nonneg K r : neg_opp_spec -> kfactors K <> [] -> r < krank K -> neg (nth r (kweights (fixneg K)) v0) = false.
+Proof.
+  intros neg_opp Hne Hr. rewrite fix_neg_weight by auto. unfold sgn_neg, vm1. destruct (neg (nth r (kweights K) v0)) eqn:E.
+  - replace (nth r (kweights K) v0 * vopp v1) with (vopp (nth r (kweights K) v0)) by ring. now apply neg_opp.
+  - replace (nth r (kweights K) v0 * v1) with (nth r (kweights K) v0) by ring. exact E.
+Qed.
+
+(* root oracle: an N-th root on the non-negative values *)
+Definition root_spec (N : nat) : Prop := forall x, neg x = false -> vpow v1 vmul (root x) N = x.
+
+Lemma den_normalize wf sort K : (wf = WAll -> kfactors K <> [] /\ root_spec (length (kfactors K)) /\ neg_opp_spec) ->
+  forall i, den (normalize wf sort None K) i = den K i.
+Proof.
+  intros Hroot i. cbn [k_normalize].
+  destruct (normalize_cols_props nrm pos vinv_r pos_nz nrm_pos K) as (S1 & R1 & L1 & D1).
+  destruct (fix_neg_props (ncols K)) as (S2 & R2 & L2 & D2).
+  assert (D3 : forall j, den (absorb wf (fixneg (ncols K))) j = den K j).
+  { intros j. rewrite <- D1, <- D2. destruct wf as [|n|]; [reflexivity|apply den_absorb_mode|].
+    destruct (Hroot eq_refl) as (Hne & Hrt & Hno).
+    apply den_absorb_all. intros r Hr. rewrite L2, L1. apply Hrt.
+    apply fix_neg_nonneg; [exact Hno| |now rewrite <- R2].
+    intros E. apply Hne. apply length_zero_iff_nil. rewrite <- L1, E. reflexivity. }
+  destruct sort; [rewrite den_sort|]; apply D3.
+Qed.
+
+
+Lemma normalize_none_props K :
+  length (kfactors (normalize WNone false None K)) = length (kfactors K).
+Proof.
+  cbn [k_normalize k_absorb].
+  destruct (normalize_cols_props nrm pos vinv_r pos_nz nrm_pos K) as (S1 & R1 & L1 & D1).
+  destruct (fix_neg_props (ncols K)) as (S2 & R2 & L2 & D2). congruence.
+Qed.
+
+Lemma den_arrange wf K : (forall n, wf = Some n -> n < length (kfactors K)) ->
+  forall i, den (arrange wf K) i = den K i.
+Proof.
+  intros Hwf i. unfold k_arrange.
+  set (K1 := normalize WNone false None K).
+  assert (D1 : forall j, den K1 j = den K j) by (intros j; apply den_normalize; discriminate).
+  assert (D2 : forall j, den (k_gather v0 (srt (kweights K1)) K1) j = den K j).
+  { intros j. rewrite <- D1. apply den_gather_perm. apply srt_perm. }
+  destruct wf as [n|]; [|apply D2].
+  rewrite den_redistribute; [apply D2|].
+  unfold k_gather. cbn [kfactors]. rewrite map_length. unfold K1. rewrite normalize_none_props. now apply Hwf.
+Qed.
+
+Lemma den_normalize_any wf sort mode K :
+  (forall n, mode = Some n -> n < length (kfactors K)) ->
+  (mode = None -> wf = WAll -> kfactors K <> [] /\ root_spec (length (kfactors K)) /\ neg_opp_spec) ->
+  forall i, den (normalize wf sort mode K) i = den K i.
+Proof.
+  intros Hm Hr. destruct mode as [n|].
+  - cbn [k_normalize]. apply (den_normalize_mode nrm pos vinv_r pos_nz nrm_pos). now apply Hm.
+  - apply den_normalize. now apply Hr.
+Qed.
+
+End Norm2.
+
+
+(* ------------------------------------------------------------------------------------------------ *)
+(* sign flips: fixsigns() and fixsigns(other)                                                        *)
+(* ------------------------------------------------------------------------------------------------ *)
+Fixpoint sgnpow (k : nat) : V := match k with 0 => v1 | S k' => m1 * sgnpow k' end.
+
+Lemma sgnpow_even k : Nat.even k = true -> sgnpow k = v1.
+Proof.
+  induction k as [k IH] using lt_wf_ind. destruct k as [|[|k]]; intros H; cbn in H; try discriminate; auto.
+  cbn [sgnpow]. rewrite IH by (auto; lia). unfold vm1. ring.
+Qed.
+
+Notation flipf := (flip_factors v1 vmul vopp).
+
+Lemma kprod_flip fl R n (As : list mat) i r : r < R -> length i = length As ->
+  kp (flipf fl R n As) i r = kp As i r * sgnpow (length (filter (fun m => fl m r) (seq n (length As)))).
+Proof.
+  intros Hr. revert n i; induction As as [|A As IH]; intros n i Hi.
+  - cbn. ring.
+  - destruct i as [|x i]; cbn in Hi; [lia|]. cbn [flip_factors kprod length seq filter].
+    rewrite mget_scale_cols, IH by lia. rewrite nth_map_seq by exact Hr.
+    destruct (fl n r); cbn [length sgnpow]; ring.
+Qed.
+
+Lemma kshape_flip fl R n (As : list mat) : map (@nrows V) (flipf fl R n As) = map (@nrows V) As.
+Proof. revert n; induction As as [|A As IH]; intros n; cbn; auto. now rewrite nrows_scale_cols, IH. Qed.
+
+Definition flips_of (fl : nat -> nat -> bool) (N r : nat) : list nat := filter (fun m => fl m r) (seq 0 N).
+
+Lemma den_flip fl K :
+  (forall r, r < krank K -> Nat.even (length (flips_of fl (length (kfactors K)) r)) = true) ->
+  forall i, den (k_flip v1 vmul vopp fl K) i = den K i.
+Proof.
+  intros Hev. apply den_k_ext.
+  - unfold kshape, k_flip. cbn. apply kshape_flip.
+  - reflexivity.
+  - intros i r Hi Hr. unfold comp, k_flip. cbn [kweights kfactors].
+    rewrite kprod_flip; auto; [|now apply inb_kshape_length].
+    rewrite sgnpow_even by (apply (Hev r Hr)). ring.
+Qed.
+
+Lemma memb_In n l : memb n l = true <-> In n l.
+Proof.
+  unfold memb. rewrite existsb_exists. split.
+  - intros (x & Hx & E). apply Nat.eqb_eq in E. now subst.
+  - intros H. exists n. split; auto. apply Nat.eqb_refl.
+Qed.
+
+Lemma count_memb l N : NoDup l -> (forall x, In x l -> x < N) ->
+  length (filter (fun m => memb m l) (seq 0 N)) = length l.
+Proof.
+  intros Hn Hb. apply Permutation_length. apply NoDup_Permutation; auto.
+  - apply NoDup_filter, seq_NoDup.
+  - intros x. rewrite filter_In, in_seq, memb_In. split; [tauto|]. intros H. split; auto. specialize (Hb x H). lia.
+Qed.
+
+Lemma NoDup_firstn {A} k (l : list A) : NoDup l -> NoDup (firstn k l).
+Proof.
+  revert k; induction l as [|a l IH]; intros [|k] H; cbn; auto using NoDup_nil.
+  inversion H; subst. constructor; auto. intros Hin. apply H2. clear -Hin.
+  revert k Hin; induction l as [|b l IH]; intros [|k] Hin; cbn in *; try tauto. destruct Hin; eauto.
+Qed.
+
+Lemma In_firstn {A} k (l : list A) x : In x (firstn k l) -> In x l.
+Proof. revert k; induction l as [|b l IH]; intros [|k] Hin; cbn in *; try tauto. destruct Hin; eauto. Qed.
+
+(* the flip set of a component: the first e entries of a duplicate-free list of modes *)
+Lemma count_firstn e l N : NoDup l -> (forall x, In x l -> x < N) -> e <= length l ->
+  length (filter (fun m => memb m (firstn e l)) (seq 0 N)) = e.
+Proof.
+  intros Hn Hb He. rewrite count_memb.
+  - rewrite firstn_length. lia.
+  - now apply NoDup_firstn.
+  - intros x Hx. apply Hb. eapply In_firstn; eauto.
+Qed.
+
+Section FixSigns.
+Variable negcol : list V -> bool.
+Notation fixsigns := (k_fixsigns v0 v1 vmul vopp negcol).
+
+Lemma where_true_props l : NoDup (where_true l) /\ forall x, In x (where_true l) -> x < length l.
+Proof.
+  unfold where_true. split; [apply NoDup_filter, seq_NoDup|].
+  intros x Hx. apply filter_In in Hx as [Hx _]. apply in_seq in Hx. lia.
+Qed.
+
+Lemma even_double k : Nat.even (2 * k) = true.
+Proof. rewrite Nat.even_mul. reflexivity. Qed.
+
+(* SIGN PARITY: fixsigns() negates an even number of factors in every component *)
+Lemma fixsigns_parity K r :
+  Nat.even (length (flips_of (fun n r => memb n (fs_modes v0 negcol K r)) (length (kfactors K)) r)) = true.
+Proof.
+  unfold flips_of. cbv beta. unfold fs_modes. set (l := where_true (map (fun A => negcol (col v0 A r)) (kfactors K))).
+  destruct (where_true_props (map (fun A => negcol (col v0 A r)) (kfactors K))) as [Hn Hb]. fold l in Hn, Hb.
+  rewrite map_length in Hb.
+  rewrite (count_firstn (2 * (length l / 2)) l); auto.
+  - apply even_double.
+  - pose proof (Nat.mul_div_le (length l) 2). lia.
+Qed.
+
+Lemma den_fixsigns K : forall i, den (fixsigns K) i = den K i.
+Proof. apply den_flip. intros r _. apply fixsigns_parity. Qed.
+End FixSigns.
+
+Section FixOther.
+Variables (neg : V -> bool) (leb : V -> V -> bool).
+Notation core := (k_fixsigns_other_core v0 v1 vadd vmul vopp neg leb).
+Notation endpt := (fso_endpt v0 vopp neg leb).
+
+Lemma endpt_props s : Nat.even (endpt s) = true /\ endpt s <= length s.
+Proof.
+  unfold fso_endpt. set (c := length (filter neg s)).
+  assert (Hc : c <= length s).
+  { unfold c. clear. induction s as [|x s IH]; cbn; auto. destruct (neg x); cbn; lia. }
+  destruct (Nat.even c) eqn:E; [auto|].
+  assert (Hodd : Nat.odd c = true) by (rewrite <- Nat.negb_even, E; reflexivity).
+  destruct ((c <? length s) && negb (leb (vopp (nth (c - 1) s v0)) (nth c s v0))) eqn:Eb.
+  - apply andb_true_iff in Eb as [Hlt _]. apply Nat.ltb_lt in Hlt. split; [|lia].
+    rewrite Nat.add_1_r. now rewrite Nat.even_succ.
+  - destruct c as [|c']; [discriminate|]. rewrite Nat.sub_succ, Nat.sub_0_r. split; [|lia].
+    rewrite Nat.odd_succ in Hodd. exact Hodd.
+Qed.
+
+(* SIGN PARITY for fixsigns(other), for every comparison and sign oracle *)
+Lemma fixsigns_other_parity A B r :
+  Nat.even (length (flips_of (fun n r => memb n (fso_modes v0 vadd vmul vopp neg leb A B r)) (length (kfactors A)) r)) = true.
+Proof.
+  unfold flips_of. cbv beta. unfold fso_modes. destruct (r <? krank B).
+  - set (s := fso_scores v0 vadd vmul A B r). set (idx := argsort leb s).
+    assert (Hs : length s = length (kfactors A)) by (unfold s, fso_scores; now rewrite map_length, seq_length).
+    pose proof (argsort_perm leb s) as Hp. fold idx in Hp.
+    destruct (endpt_props (pick v0 idx s)) as [He Hle]. rewrite pick_length in Hle.
+    rewrite (count_firstn (endpt (pick v0 idx s)) idx); auto.
+    + eapply is_perm_NoDup; eauto.
+    + intros x Hx. rewrite <- Hs. now apply (is_perm_In idx (length s) x Hp).
+  - assert (E : forall l : list nat, filter (fun m => memb m []) l = []) by (induction l; auto). now rewrite E.
+Qed.
+
+Lemma den_fixsigns_other_core A B : forall i, den (core A B) i = den A i.
+Proof. apply den_flip. intros r _. apply fixsigns_other_parity. Qed.
+End FixOther.
+
+
+(* fixsigns(other) as a whole: normalise both operands (2-norm, no absorption), then the paired flips *)
+Section FixOtherFull.
+Variables (nrm : list V -> V) (pos neg : V -> bool) (root : V -> V) (srt : list V -> list nat) (leb : V -> V -> bool).
+Hypothesis vinv_r : forall x, x <> v0 -> x * vinv x = v1.
+Hypothesis pos_nz : forall x, pos x = true -> x <> v0.
+Hypothesis nrm_pos : forall l, pos (nrm l) = false -> Forall (fun y => y = v0) l.
+Hypothesis srt_perm : forall l, is_perm (srt l) (length l).
+Definition k_fixsigns_other (A B : ktensor V) : ktensor V :=
+  k_fixsigns_other_core v0 v1 vadd vmul vopp neg leb
+    (k_normalize v0 v1 vmul vopp vinv nrm pos neg root srt WNone false None A)
+    (k_normalize v0 v1 vmul vopp vinv nrm pos neg root srt WNone false None B).
+Lemma den_fixsigns_other A B : forall i, den (k_fixsigns_other A B) i = den A i.
+Proof.
+  intros i. unfold k_fixsigns_other. rewrite den_fixsigns_other_core.
+  apply (den_normalize nrm pos neg root srt vinv_r pos_nz nrm_pos srt_perm). discriminate.
+Qed.
+End FixOtherFull.
 
 End P8.
